@@ -146,6 +146,118 @@ def case(task):
     return out
 
 
+# ---- the name grammar, enumerated: every name of up to N components over a small alphabet, at every strip level
+
+NEST = ('l3', 'l2', 'lvl1')   # the workspace of the grid sits four levels inside the sentinel: names of up to four components cannot get past it
+GRID_KINDS = (('create', ('+++', 'both')), ('modify', ('---', '+++', 'both')), ('delete', ('---', 'both')), ('rename-to', ('git',)), ('rename-from', ('git',)), ('git-mode', ('git',)), ('failing', ('---', '+++', 'both')))
+
+
+def gnu_strip(name, n):
+    """what -pN leaves of a name, the way patch(1) documents it: N times "everything up to and including the next run of slashes"; None if the name is used up"""
+    i = 0
+    for _ in range(n):
+        j = name.find('/', i)
+        if j < 0:
+            return None
+        while j < len(name) and name[j] == '/':
+            j += 1
+        i = j
+    return name[i:]
+
+
+def judge(rest):
+    """'absolute' | 'escapes' | 'inside' for what is left of a name"""
+    if rest.startswith('/'):
+        return 'absolute'
+    return 'escapes' if escapes([c for c in rest.split('/') if c not in ('', '.')]) else 'inside'
+
+
+def grid_names(maxlen, variants):
+    import itertools
+    out = []
+    for n in range(1, maxlen + 1):
+        for comps in itertools.product(('a', 'x', '..', '.'), repeat=n):
+            out.append('/'.join(comps))
+            if variants and n <= 3:
+                for k in range(1, n):   # one double slash at each joint
+                    out.append('/'.join(comps[:k]) + '//' + '/'.join(comps[k:]))
+                out.append('/'.join(comps) + '/')
+    return out
+
+
+def grid_case(task):
+    name, strip, prefixed, kind, pos, quoted, threads = task
+    d = wsweep.wdir()
+    sentinel = os.path.join(d, 'sentinel')
+    shutil.rmtree(sentinel, ignore_errors=True)
+    root = os.path.join(sentinel, *NEST, 'ws')
+    os.makedirs(os.path.dirname(root))
+    cur = sentinel
+    for lvl in ('',) + NEST:   # decoys at every place a name of the grid can point to
+        cur = os.path.join(cur, lvl) if lvl else cur
+        os.makedirs(os.path.join(cur, 'a'), exist_ok=True)
+        for pth in ('x', 'a/x', 'a/a'):
+            if not os.path.isdir(os.path.join(cur, pth)):
+                with open(os.path.join(cur, pth), 'wb') as f:
+                    f.write(DECOY)
+    # prefixed: the name carries `strip` extra leading components, so that the spelled name is what is left; otherwise -pN eats into the spelled name itself
+    pre = (''.join('p%d/' % i for i in range(strip - 1)) + ('p/' if strip >= 1 else '')) if prefixed else ''
+    full = pre + name
+    text = build_patch(kind, pos, full, quoted)
+    inpre = ''.join('p%d/' % i for i in range(strip - 1)) + ('p/' if strip >= 1 else '')
+    if strip != 1:
+        text = text.replace(b'p/', inpre.encode()) if inpre else text.replace(b'p/', b'')
+        if not prefixed and inpre:   # the replacement above must not touch the spelled name (it has no 'p/' in it: the alphabet is a, x, .., .)
+            pass
+    files = {'f': (INTREE, 0o644), 'g0': (b'g\n', 0o644), 'a/x': (DECOY, 0o644), 'x': (DECOY, 0o644)}
+    ws.make_ws(root, files, {'p1.patch': text}, ['p1.patch -p%d' % strip])
+    rest = gnu_strip(full, strip)
+    verdict = 'used-up' if rest is None else judge(rest)
+    log = os.path.join(d, 'fslog')
+    if os.path.exists(log):
+        os.unlink(log)
+    inside_rel = os.path.join(*NEST, 'ws') + '/'
+
+    def outside_snapshot():
+        s_ = ws.snapshot(sentinel, meta=True, skip=())
+        keep = set()
+        cur_ = ''
+        for lvl in NEST:   # the directories on the way down change their mtime when the workspace is made; they are set up before the first snapshot, so they are compared as well
+            cur_ = cur_ + lvl + '/'
+            keep.add(cur_)
+        return {p_: v for p_, v in s_.items() if not (p_ + '/').startswith(inside_rel) and p_ != './'}
+    before = outside_snapshot()
+    o = ws.run_rq(root, ['-a', '-q'], threads=threads, preload_env=fsmon.env(log))
+    after = outside_snapshot()
+    out = {'evals': 1, 'violations': [], 'outcomes': {verdict + ':exit-' + o.cls: 1}, 'nontrivial': 1 if verdict in ('escapes', 'absolute') else 0}
+    tags = wsweep.cls({'grid', 'left-after-strip:' + verdict, kind, 'at:' + pos, '-p%d' % strip, 'strip-eats-into-the-name' if not prefixed and strip else 'name-behind-prefix',
+                       'threads>1' if threads > 1 else 'threads=1'} | ({'quoted'} if quoted else set()))
+    w = lambda extra: dict({'kind': 'cli-sentinel-grid', 'task': list(task), 'patch': common.b2s(text), 'series': ['p1.patch -p%d' % strip], 'threads': threads, 'name_after_strip': rest, 'verdict': verdict}, **extra)
+    if o.cls not in ('0', '1'):
+        out['violations'].append((tags, o.cls, w({'observed': o.cls, 'stderr': common.b2s(o.err[-300:])})))
+        return out
+    changed = sorted(p_ for p_ in set(before) | set(after) if before.get(p_) != after.get(p_))
+    if changed:
+        out['violations'].append((tags, 'file-outside-the-tree-changed', w({'expected': 'sentinel directory unchanged', 'observed': changed[:6]})))
+    rootn, sent = os.path.normpath(root), os.path.normpath(sentinel)
+    onpath = set()
+    cur = rootn
+    while cur != os.path.dirname(sent):
+        cur = os.path.dirname(cur)
+        onpath.add(cur)
+    touched = []
+    for n_, op, p_, fault in fsmon.read_log(log, rootn):
+        ps = [os.path.normpath(x if x.startswith('/') else os.path.join(rootn, x)) for x in p_.split(' -> ')] if ' -> ' in p_ else [os.path.normpath(p_)]
+        for x in ps:
+            if (x + '/').startswith(sent + '/') and not (x + '/').startswith(rootn + '/') and x not in onpath:
+                touched.append('%s %s' % (op, x[len(sent):]))
+    if touched and not changed:
+        out['violations'].append((tags, 'file-outside-the-tree-accessed', w({'expected': 'no file-system call outside the working directory', 'observed': touched[:6]})))
+    if verdict in ('escapes', 'absolute') and o.cls != '1' and not changed and not touched:
+        out['violations'].append((tags, 'escaping-name-not-refused', w({'expected': 'exit 1', 'observed': o.cls})))
+    return out
+
+
 LINKS = {'out': '../../abs', 'lnk': '../x', 'dangling': '../created-through-a-link', 'loop': 'loop', 'inside': 'sub', 'inlnk': 'sub/f',
          # a link waiting where the backups of p1.patch for files below sub/ go
          '.pc/p1.patch/sub': '../../../../abs'}
@@ -259,6 +371,31 @@ def run(tier, seed):
             r['sample'] = {'spelling': t[1], 'strip': t[2], 'kind': t[3], 'position': t[4], 'quoted': t[5], 'threads': t[6], 'outcome': sorted(r['outcomes'])}
         acc.add(r)
     acc.finish('sweep')
+    gtasks = []
+    maxlen, variants = (3, False) if tier == 'quick' else (4, True)
+    for name in grid_names(maxlen, variants):
+        ncomp = len([c for c in name.split('/') if c])
+        for strip in ((0, 1, 2) if tier == 'quick' else (0, 1, 2, 3)):
+            for prefixed in ((True,) if strip == 0 else (True, False)):
+                if not prefixed and (tier == 'quick' or strip > 2):
+                    continue
+                for kind, positions in GRID_KINDS:
+                    for pos in positions:
+                        for threads in ((1,) if tier == 'quick' else (1, 2)):
+                            gtasks.append((name, strip, prefixed, kind, pos, False, threads))
+                            if tier != 'quick' and ncomp <= 2 and threads == 1:
+                                gtasks.append((name, strip, prefixed, kind, pos, True, threads))
+    accg = wsweep.Acc(res)
+    for i, r in enumerate(wsweep.pmap(grid_case, gtasks)):
+        if i % 4999 == 0:
+            r = dict(r)
+            r['sample'] = {'task': list(gtasks[i]), 'outcome': sorted(r['outcomes'])}
+        accg.add(r)
+    accg.finish('name_grid')
+    res.coverage['name_grid']['rule'] = ('every name of 1..%d components over {a, x, .., .} (%s) x -p0..-p%d, once behind as many extra leading components as are stripped and once with the strip count eating into the '
+                                         'name itself, x the same kinds and header positions as the sweep x threads %s; the workspace sits four levels inside the sentinel, decoys x, a/x, a/a at every level. What -pN leaves is '
+                                         'computed by the rule of patch(1) (a component ends with its run of slashes). Same oracle as the sweep; non-trivial = what is left is absolute or climbs out'
+                                         % (maxlen, 'also with a doubled slash at each joint and with a trailing slash' if variants else 'single slashes', 2 if tier == 'quick' else 3, '{1}' if tier == 'quick' else '{1,2}; quoted form for names of up to two components'))
     ltasks = []
     for name, kinds in (('out/created', ('create', 'rename-to')), ('out/x', ('modify', 'delete', 'failing')), ('out/sub/x', ('delete', 'modify')), ('out/new/deep/f', ('create',)), ('lnk', ('modify', 'delete', 'failing')),
                         ('dangling', ('create', 'rename-to')), ('loop', ('create', 'modify')), ('inside/f', ('modify', 'delete', 'failing')), ('inside/n', ('create',)), ('inlnk', ('modify',)), ('sub/f', ('modify', 'delete')), ('sub/new', ('create',))):
